@@ -3,6 +3,7 @@
 pub mod dtls;
 pub mod ice;
 pub mod pc;
+pub mod pcpair;
 pub mod pcrtp;
 pub mod pump;
 pub mod rtp;
@@ -50,6 +51,7 @@ pub enum Ep {
     Rtp(rtp::Ep),
     Udptl(udptl::Ep),
     PcRtp(pcrtp::Ep),
+    PcPair(pcpair::Ep),
 }
 
 impl Ep {
@@ -73,6 +75,7 @@ impl Ep {
             // (the noisy repetition uses AEAD_AES_128_GCM)
             "rtp_transport" => Ok(Ep::Rtp(rtp::Ep::build(variant % 2 == 1, variant >= 2).await?)),
             "udptl" => Ok(Ep::Udptl(udptl::Ep::build().await?)),
+            "pc_webrtc" => Ok(Ep::PcPair(pcpair::Ep::build().await?)),
             // second concretisation: RTP latching with a probation window enabled
             "pc_rtp" => Ok(Ep::PcRtp(pcrtp::Ep::build(variant % 2 == 1).await?)),
             _ => Err(format!("unsupported entry {entry}")),
@@ -90,6 +93,7 @@ impl Ep {
             Ep::Rtp(e) => e.progress(to).await,
             Ep::Udptl(_) => Ok(()),
             Ep::PcRtp(e) => e.progress(to).await,
+            Ep::PcPair(e) => e.progress(to).await,
         }
     }
     /// EXT (beyond the listed property): after the measured step, does the endpoint still serve its genuine peer?
@@ -98,7 +102,7 @@ impl Ep {
             Ep::Turn(_) => None,
             Ep::Dtls(e) => Some(e.still_alive().await),
             Ep::Sctp(e) => Some(e.still_alive().await),
-            Ep::Pc(_) | Ep::IceUdp(_) | Ep::IceTcp(_) | Ep::Rtp(_) | Ep::Udptl(_) | Ep::PcRtp(_) => None,
+            Ep::Pc(_) | Ep::IceUdp(_) | Ep::IceTcp(_) | Ep::Rtp(_) | Ep::Udptl(_) | Ep::PcRtp(_) | Ep::PcPair(_) => None,
         }
     }
     async fn genuine(&mut self, tpl: &str) -> Option<Vec<u8>> {
@@ -112,6 +116,7 @@ impl Ep {
             Ep::Rtp(e) => e.genuine(tpl),
             Ep::Udptl(e) => e.genuine().await,
             Ep::PcRtp(e) => e.genuine(tpl),
+            Ep::PcPair(e) => e.genuine(tpl),
         }
     }
     async fn feed(&mut self, input: &[u8]) -> Feed {
@@ -125,6 +130,7 @@ impl Ep {
             Ep::Rtp(e) => e.feed(input).await,
             Ep::Udptl(e) => e.feed(input).await,
             Ep::PcRtp(e) => e.feed(input).await,
+            Ep::PcPair(e) => e.feed(input).await,
         }
     }
     /// Entry-specific repair of a mutated input (e.g. the SCTP checksum), given the mutated field.
@@ -146,6 +152,7 @@ impl Ep {
             Ep::Rtp(e) => e.observe(),
             Ep::Udptl(e) => e.observe(),
             Ep::PcRtp(e) => e.observe(),
+            Ep::PcPair(e) => e.observe(),
         }
     }
 }
@@ -258,7 +265,7 @@ pub async fn run_case(ctx: &Ctx, st: &mut State, ci: usize, c: &Value) -> Value 
                     "rtp_transport" if phase == "est" => Some(note != "delivered=0"),
                     "pc_sdp" | "pc_candidate" if phase != "closing" && c["pre"].as_array().map(|p| p.iter().all(|o| o["op"] != "feed")).unwrap_or(true) => Some(note == "accepted"),
                     "dtls_server" | "dtls_client" | "sctp" if phase != "closing" && c["pre"].as_array().map(|p| p.iter().all(|o| o["op"] != "feed")).unwrap_or(true) => v["processed"].as_bool(),
-                    "ice_udp" | "turn_udp" | "pc_rtp" if phase != "closing" => v["processed"].as_bool(),
+                    "ice_udp" | "turn_udp" | "pc_rtp" | "pc_webrtc" if phase != "closing" => v["processed"].as_bool(),
                     _ => None,
                 };
                 json!({"type": "baseline", "tpl": tpl, "entry": entry, "phase": phase, "conforms": true, "effect": effect, "note": note,
